@@ -249,6 +249,41 @@ fn check_inverse(ctx: &Ctx, civ: &Civil, tm: &Terms, ord: usize, b: usize, range
   }
 }
 
+/// the late Zi hour of 31 December of year y (23:00..00:59) searched with a range that ends in y: the characters hold
+/// throughout the double-hour, whose first half lies in the range, so an instant inside it must be returned
+fn check_year_end(ctx: &Ctx, civ: &Civil, tm: &Terms, y: i32, loc: &mut Local) {
+  let ord = match civ.ord(y, 12, 31) {
+    Some(o) => o,
+    None => return,
+  };
+  let (s, e) = (ord as i64 * 86400 + 82800, ord as i64 * 86400 + 86400 + 3599);
+  let probe = ord as i64 * 86400 + 84600; // 23:30:00
+  let gs = match (tm.g_of_inst(s), tm.g_of_inst(e)) {
+    (Some(a), Some(z)) => (a, z),
+    _ => return,
+  };
+  if (gs.0 + 1..=gs.1).any(|g| g % 2 == 1) || model_chars(civ, tm, probe, true).is_none() {
+    return;
+  }
+  for ka in [0isize, 1] {
+    let ys = (y as isize - 60 * ka).max(1);
+    loc.transitions += 1;
+    let r = guard(|| {
+      let ec = mk_time(civ, probe).get_lunar_hour().get_eight_char();
+      ec.get_solar_times(ys, y as isize).iter().map(|t| inst_of(civ, t)).collect::<Vec<_>>()
+    });
+    let key = format!("{} range {}..{}", fmt_inst(civ, probe), ys, y);
+    match r {
+      Ok(out) => {
+        if !out.iter().any(|t| matches!(t, Some(t) if *t >= s && *t <= e)) {
+          ctx.violation("inverse_complete", key, format!("the characters of {} hold from {} to {} (no Jie inside); get_solar_times({}, {}) returned {} instant(s), none inside that double-hour", fmt_inst(civ, probe), fmt_inst(civ, s), fmt_inst(civ, e), ys, y, out.len()), vec!["yearend".into(), y.to_string()]);
+        }
+      }
+      Err(m) => ctx.violation("inverse_complete", key, format!("panics: {}", m), vec!["yearend".into(), y.to_string()]),
+    }
+  }
+}
+
 pub fn run(ctx: &Ctx) {
   let civ = Civil::build();
   let tm = Terms::build(ctx, &civ);
@@ -343,6 +378,14 @@ pub fn run(ctx: &Ctx) {
     });
   }
   ctx.subspace(&format!("(c) inverse search: every double-hour of every day of years {:?} and of the first 40 days of 2 (quick) / 7 (thorough) years of the Julian-drift and far-future eras x year ranges [y-60k, y+60k'] for (k,k') in {:?}", eras, ranges), done, nc);
+  // (c') the last double-hour of a year against a range ending in that year
+  let yends: Vec<i32> = if ctx.quick() { vec![2, 1500, 1582, 2023, 2024, 9000] } else { (2..=9997).step_by(7).collect() };
+  let done = par_chunks(ctx, 0, yends.len(), 4, |a, b, l| {
+    for k in a..b {
+      check_year_end(ctx, &civ, &tm, yends[k], l);
+    }
+  });
+  ctx.subspace(&format!("(c') late Zi hour of 31 December of {} years searched with ranges [y, y] and [y-60, y] ending in that year", yends.len()), done, yends.len() as u64 * 2);
   for inst in [civ.ord(2023, 12, 31).unwrap() as i64 * 86400 + 23 * 3600 + 100, civ.ord(2024, 2, 4).unwrap() as i64 * 86400 + 16 * 3600 + 26 * 60 + 53] {
     let got = guard(|| mk_time(&civ, inst).get_lunar_hour().get_eight_char().get_name());
     ctx.sample(format!("{}: impl {:?}; model {:?}", fmt_inst(&civ, inst), got, model_chars(&civ, &tm, inst, true)));
@@ -354,6 +397,11 @@ pub fn replay(ctx: &Ctx, args: &[String]) {
   let n: Vec<i64> = args[1..].iter().filter_map(|a| a.parse().ok()).collect();
   let mut l = Local::default();
   match args[0].as_str() {
+    "yearend" => {
+      let y = n[0] as usize;
+      let tm = Terms::build_range(ctx, &civ, y.saturating_sub(1), (y + 2).min(10000));
+      check_year_end(ctx, &civ, &tm, y as i32, &mut l);
+    }
     "hour" => {
       let y = civ.date((n[0] / 86400) as usize).0 as usize;
       let tm = Terms::build_range(ctx, &civ, y.saturating_sub(1), (y + 1).min(10000));
